@@ -145,12 +145,14 @@ func (a *IdArg) Parse() error {
 		}
 	}
 	var r rune = rune(str[0])
-	if !(r == '_' || unicode.IsLetter(r)) {
+	// ALPHA and DIGIT of the ABNF are ASCII; the string is walked byte by
+	// byte, so bytes >= 0x80 are never characters of their own.
+	if r >= 0x80 || !(r == '_' || unicode.IsLetter(r)) {
 		return ErrInval
 	}
 	for i := 1; i < len(str); i++ {
 		var r rune = rune(str[i])
-		if !isAlphaNumeric(r) && r != '-' && r != '.' {
+		if r >= 0x80 || (!isAlphaNumeric(r) && r != '-' && r != '.') {
 			return ErrInval
 		}
 	}
